@@ -1,2 +1,113 @@
-(* Model/Fastq.v — executable model; no proofs here. *)
+(* Model/Fastq.v — executable model of /repo/formats/fastq (fastq.go, iter.go);
+   no proofs here.
+
+   Writer: Fastq.Write makes one Fprintf call "@%s\n%s\n+\n%s\n"; MarshalText
+   writes into a buffer and panics when the length is not 6 + the three field
+   lengths.
+   Reader: bufio.Scanner with ScanLines and the token limit lifted to MaxInt
+   (so no limit here).  A run of the Scanner is the token list
+   [Base.scan_tokens delivered] plus the terminal condition, which is consulted
+   (Scanner.Err) only when Scan returns false. *)
 From Bio Require Import Base.
+
+Record fastq : Type := { name : bytes; seq : bytes; quals : bytes }.
+
+Definition AT : byte := 64.     (* '@' *)
+Definition PLUS : byte := 43.   (* '+' *)
+
+(* fmt.Fprintf(w, "@%s\n%s\n+\n%s\n", f.Name, f.Sequence, f.Quals) *)
+Definition write (r : fastq) : bytes :=
+  AT :: name r ++ LF :: seq r ++ LF :: PLUS :: LF :: quals r ++ [LF].
+
+(* the chunks handed to the io.Writer: a single Write call *)
+Definition write_calls (r : fastq) : list bytes := [write r].
+
+(* MarshalText: n := 6 + len(Name) + len(Sequence) + len(Quals); f.Write(buf);
+   if buf.Len() != n { panic } *)
+Definition marshal_text (r : fastq) : outcome bytes :=
+  let n := (6 + length (name r) + length (seq r) + length (quals r))%nat in
+  let buf := concat (write_calls r) in
+  if Nat.eqb (length buf) n then Ok buf else Panic.
+
+(* ------------------------------------------------------------------ *)
+(* Reader.  The scanner state is the list of tokens still to come;
+   Scanner.Scan() is a match on it: [] is "Scan returned false", tk :: rest is
+   "Scan returned true, Bytes() = tk".                                  *)
+
+(* bytes.HasPrefix(plus, []byte("+")) *)
+Definition has_plus_prefix (l : bytes) : bool :=
+  match l with
+  | c :: _ => c =? PLUS
+  | [] => false
+  end.
+
+(* reader.read() in continuation-passing style (so that the decode loop below is
+   structurally recursive on the token list):
+     k_rec r rest  a record was read, [rest] are the tokens still to come
+     k_eof         io.EOF: the clean end, no record available
+     k_err         any other error *)
+Definition read_with {A : Type} (toks : list bytes) (t : term)
+    (k_rec : fastq -> list bytes -> A) (k_eof k_err : A) : A :=
+  (* Read name. *)
+  match toks with
+  | [] =>
+    match t with
+    | TEOF => k_eof                      (* s.Err() == nil: io.EOF *)
+    | TErr => k_err                      (* "fastq read: %v" *)
+    end
+  | l1 :: toks1 =>
+    (* len(name) == 0 || name[0] != '@' *)
+    match l1 with
+    | [] => k_err
+    | c :: nm =>
+      if negb (c =? AT) then k_err else
+      (* Read sequence *)
+      match toks1 with
+      | [] =>
+        match t with
+        | TEOF => k_err                  (* io.ErrUnexpectedEOF *)
+        | TErr => k_err                  (* "fastq read: %v" *)
+        end
+      | sq :: toks2 =>
+        (* Read plus *)
+        match toks2 with
+        | [] =>
+          match t with
+          | TEOF => k_err
+          | TErr => k_err
+          end
+        | plus :: toks3 =>
+          if negb (has_plus_prefix plus) then k_err else
+          (* Read qualities *)
+          match toks3 with
+          | [] =>
+            match t with
+            | TEOF => k_err
+            | TErr => k_err
+            end
+          | ql :: toks4 =>
+            if negb (Nat.eqb (length ql) (length sq)) then k_err
+            else k_rec {| name := nm; seq := sq; quals := ql |} toks4
+          end
+        end
+      end
+    end
+  end.
+
+Inductive read_result : Type :=
+| RRec (r : fastq) (rest : list bytes)
+| REof
+| RErr.
+
+(* reader.read() on the scanner state (remaining tokens, terminal condition) *)
+Definition read_one (st : list bytes * term) : read_result :=
+  read_with (fst st) (snd st) RRec REof RErr.
+
+(* reader.iter(): yield records until read fails; an error other than io.EOF is
+   yielded as the last item; io.EOF ends the iteration without an item. *)
+Fixpoint decode_toks (t : term) (toks : list bytes) {struct toks} : list (item fastq) :=
+  read_with toks t (fun r rest => Rec r :: decode_toks t rest) [] [ErrItem].
+
+(* fastq.Reader(r) for a stream that delivered [s] and then reported [t] *)
+Definition decode (s : bytes) (t : term) : list (item fastq) :=
+  decode_toks t (scan_tokens s).
